@@ -1,9 +1,119 @@
-import Gzx.Util
+import Gzx.Model.GridSampler
 namespace Gzx.Driver.C19
-open Gzx
+open Gzx Gzx.Perspective Gzx.GridSampler
+
+/-- "n/d" or "n" -> Rat -/
+def parseRat? (s : String) : Option Rat :=
+  match s.splitOn "/" with
+  | [n] => (parseInt? n).map (fun n => (n : Rat))
+  | [n, d] =>
+    match parseInt? n, parseNat? d with
+    | some n, some d => if d = 0 then none else some (mkRat n d)
+    | _, _ => none
+  | _ => none
+
+def parseRatList? (s : String) : Option (List Rat) :=
+  if s.isEmpty || s == "-" then some [] else (s.splitOn ",").mapM parseRat?
+
+def showRat (q : Rat) : String := toString q.num ++ "/" ++ toString q.den
+
+def showRatList (qs : List Rat) : String :=
+  if qs.isEmpty then "-" else ",".intercalate (qs.map showRat)
+
+/-- comparison policy: a quadrilateral is skipped ("nonfinite") when SquareToQuadrilateral would divide
+    by zero, or when it has zero area / a singular coefficient matrix — there float64 rounding decides
+    which branch Go takes (e.g. `dx3` rounds to 1e-17 instead of 0 and the non-affine branch divides 0/0),
+    and the property only speaks about non-degenerate quadrilaterals. -/
+def degenerateQuad (x0 y0 x1 y1 x2 y2 x3 y3 : Rat) : Bool :=
+  sqDegenerate x0 y0 x1 y1 x2 y2 x3 y3 || sqDenominator x1 y1 x2 y2 x3 y3 == 0 ||
+    (squareToQuadrilateral x0 y0 x1 y1 x2 y2 x3 y3).det == 0
+
+/-- builds the transform named by `kind` from its coordinate list; `some none` = skipped (degenerate) -/
+def mkTransform? (kind : String) (cs : List Rat) : Option (Option (PT Rat)) :=
+  match kind, cs with
+  | "s2q", [x0, y0, x1, y1, x2, y2, x3, y3] =>
+    some (if degenerateQuad x0 y0 x1 y1 x2 y2 x3 y3 then none
+          else some (squareToQuadrilateral x0 y0 x1 y1 x2 y2 x3 y3))
+  | "q2s", [x0, y0, x1, y1, x2, y2, x3, y3] =>
+    some (if degenerateQuad x0 y0 x1 y1 x2 y2 x3 y3 then none
+          else some (quadrilateralToSquare x0 y0 x1 y1 x2 y2 x3 y3))
+  | "q2q", [x0, y0, x1, y1, x2, y2, x3, y3, x0p, y0p, x1p, y1p, x2p, y2p, x3p, y3p] =>
+    some (if degenerateQuad x0 y0 x1 y1 x2 y2 x3 y3 || degenerateQuad x0p y0p x1p y1p x2p y2p x3p y3p then none
+          else some (quadrilateralToQuadrilateral x0 y0 x1 y1 x2 y2 x3 y3 x0p y0p x1p y1p x2p y2p x3p y3p))
+  | _, _ => none
+
+def eps : Rat := mkRat 1 1000000
+
+def nearest (x : Rat) : Int := (x + 1/2).floor
+
+def near (x : Rat) : Bool :=
+  let d := x - (nearest x : Rat)
+  decide (d < eps) && decide (-eps < d)
+
+/-- `near` and the integer concerned is one where the accept / nudge / NotFound decision changes -/
+def crit (n : Int) (x : Rat) : Bool :=
+  near x && (let k := nearest x; k == -2 || k == -1 || k == 0 || k == n || k == n + 1)
+
+def parseRows (w : Nat) (s : String) : List (List Bool) :=
+  if w = 0 then [] else (s.splitOn "/").map parseBits
+
+/-- annotated sampling: the model's result, with cells whose transformed centre lies within 1e-6
+    of a pixel boundary printed as `?`, and `b=1` when such a cell sits at a decision boundary -/
+def sampleShow (img : Image) (dimX dimY : Int) (t : PT Rat) : String :=
+  let rows := (List.range dimY.toNat).map (fun y => transformRow t (rowCentres dimX.toNat y))
+  if rows.any (fun r => r.isNone) then "nonfinite"
+  else
+    let pts := rows.map (fun r => r.getD [])
+    let b := pts.any (fun r => r.any (fun p => crit img.w p.1 || crit img.h p.2))
+    let bs := if b then " b=1" else " b=0"
+    match sampleGridWithTransform img dimX dimY t with
+    | .error e => (if e.isPanic then "PANIC" else "ERR:" ++ e.tag) ++ bs
+    | .ok bits =>
+      let showRow (r : List Bool × List Pt) : String :=
+        String.ofList ((r.1.zip r.2).map (fun (bit, p) =>
+          if near p.1 || near p.2 then '?' else if bit then '1' else '0'))
+      "ok " ++ "/".intercalate ((bits.zip pts).map showRow) ++ bs
+
+def showResP {α} (f : α → String) : Res α → String
+  | .ok a => f a
+  | .error e => if e.isPanic then "PANIC" else "ERR:" ++ e.tag
 
 /-- line-protocol handler of suite `c19` (arguments after the suite name) -/
 def handle : List String → String
+  | ["tp", kind, cs, pts] =>
+    match parseRatList? cs, parseRatList? pts with
+    | some cs, some pts =>
+      match mkTransform? kind cs with
+      | none => "bad-op"
+      | some none => "nonfinite"
+      | some (some t) =>
+        match t.transformPoints? pts with
+        | none => "nonfinite"
+        | some r => showRatList r
+    | _, _ => "bad-op"
+  | ["tpxy", kind, cs, xs, ys] =>
+    match parseRatList? cs, parseRatList? xs, parseRatList? ys with
+    | some cs, some xs, some ys =>
+      match mkTransform? kind cs with
+      | none => "bad-op"
+      | some none => "nonfinite"
+      | some (some t) =>
+        if (xs.zip ys).any (fun (x, y) => t.denom x y == 0) then "nonfinite"
+        else showResP (fun (r : List Rat × List Rat) => showRatList r.1 ++ ";" ++ showRatList r.2)
+               (t.transformPointsXY xs ys)
+    | _, _, _ => "bad-op"
+  | ["nudge", w, h, pts] =>
+    match parseInt? w, parseInt? h, parseRatList? pts with
+    | some w, some h, some pts => showResP (fun r => "ok " ++ showRatList r) (checkAndNudgePoints w h pts)
+    | _, _, _ => "bad-op"
+  | ["sg", w, h, dimX, dimY, rows, cs] =>
+    match parseNat? w, parseNat? h, parseInt? dimX, parseInt? dimY, parseRatList? cs with
+    | some w, some h, some dimX, some dimY, some cs =>
+      match mkTransform? "q2q" cs with
+      | none => "bad-op"
+      | some none => "nonfinite"
+      | some (some t) => sampleShow (Image.ofRows w h (parseRows w rows)) dimX dimY t
+    | _, _, _, _, _ => "bad-op"
   | _ => "bad-op"
 
 end Gzx.Driver.C19
